@@ -551,6 +551,105 @@ def loadsCall (E : Env) (callExtHook : Bool) (ser : Ser) (fuel : Nat) (lit : Val
     else unpack4 E ser fuel lit
   | _ => unpack4 E ser fuel lit
 
+/-! ### canonical rendering (what the driver prints and what the extracted probe table records) -/
+
+def hexDigitC (n : Nat) : Char := if n < 10 then Char.ofNat (48 + n) else Char.ofNat (87 + n)
+
+def hexBytes : List Nat → List Char
+  | [] => []
+  | b :: bs => hexDigitC (b / 16) :: hexDigitC (b % 16) :: hexBytes bs
+
+def hexOrDash (bs : List Nat) : List Char := if bs.isEmpty then ['-'] else hexBytes bs
+
+def utf8Enc (c : Char) : List Nat :=
+  let n := c.toNat
+  if n < 0x80 then [n]
+  else if n < 0x800 then [0xC0 + n / 64, 0x80 + n % 64]
+  else if n < 0x10000 then [0xE0 + n / 4096, 0x80 + n / 64 % 64, 0x80 + n % 64]
+  else [0xF0 + n / 262144, 0x80 + n / 4096 % 64, 0x80 + n / 64 % 64, 0x80 + n % 64]
+
+def utf8EncStr : Str → List Nat
+  | [] => []
+  | c :: cs' => utf8Enc c ++ utf8EncStr cs'
+
+/-- hex of the UTF-8 encoding ("-" = empty) -/
+def strHex (s : Str) : List Char := hexOrDash (utf8EncStr s)
+
+def pyroNameL : PyroCls → Str
+  | .uri => cs "Pyro5.core.URI"
+  | .proxy => cs "Pyro5.client.Proxy"
+  | .daemon => cs "Pyro5.server.Daemon"
+  | .wrapper => cs "Pyro5.core._ExceptionWrapper"
+  | .serpentSer => cs "Pyro5.serializers.SerpentSerializer"
+  | .marshalSer => cs "Pyro5.serializers.MarshalSerializer"
+  | .jsonSer => cs "Pyro5.serializers.JsonSerializer"
+  | .msgpackSer => cs "Pyro5.serializers.MsgpackSerializer"
+
+def clsNameL : Cls → Str
+  | .pyro c => pyroNameL c
+  | .exc q => q
+  | .custom t => cs "custom:" ++ strHex t
+
+def renderKeyL : Key → List Char
+  | .str s => 'S' :: strHex s
+  | .other l => 'O' :: l.toList
+
+def sepL (first : Bool) : List Char := if first then [] else [',']
+
+mutual
+/-- the canonical text of a decoded value (mirrored by `canon` in harness/props/c04.py) -/
+def renderL : Val → List Char
+  | .atom _ l => 'A' :: l.toList
+  | .blob _ l => 'A' :: l.toList
+  | .str s => 'S' :: strHex s
+  | .bytes b => 'B' :: hexOrDash (b.map UInt8.toNat)
+  | .list xs => 'L' :: '[' :: renderItemsL true xs ++ [']']
+  | .tuple xs => 'T' :: '[' :: renderItemsL true xs ++ [']']
+  | .set xs => 'E' :: '[' :: renderItemsL true xs ++ [']']
+  | .dict ks vs => 'D' :: '[' :: renderEntriesL true ks vs ++ [']']
+  | .ext _ raw _ _ => 'A' :: raw.toList
+  | .inst (.pyro .proxy) (_ :: _ :: _ :: _ :: rest) => 'I' :: pyroNameL .proxy ++ '(' :: renderItemsL true rest ++ [')']
+  | .inst c ps => 'I' :: clsNameL c ++ '(' :: renderItemsL true ps ++ [')']
+def renderItemsL : Bool → List Val → List Char
+  | _, [] => []
+  | first, x :: xs => sepL first ++ renderL x ++ renderItemsL false xs
+def renderEntriesL : Bool → List Key → List Val → List Char
+  | first, k :: ks, v :: vs => sepL first ++ renderKeyL k ++ '=' :: renderL v ++ renderEntriesL false ks vs
+  | _, _, _ => []
+end
+
+def renderErrL : Err → List Char
+  | .security => cs "Security"
+  | .serialize => cs "Serialize"
+  | .lookup => cs "Lookup"
+  | .typeAttr => cs "TypeAttr"
+  | .value => cs "Value"
+  | .assertion => cs "Assertion"
+  | .ext .ctor => cs "ext:ctor"
+  | .ext .setattr => cs "ext:setattr"
+  | .ext .float => cs "ext:float"
+  | .ext .uri => cs "ext:uri"
+  | .ext .mkset => cs "ext:mkset"
+  | .ext .exthook => cs "ext:exthook"
+  | .unmodelled => cs "Unmodelled"
+  | .fuel => cs "Fuel"
+
+/-- "ok <rendering>" / "err <Enum>" -/
+def outcomeL (m : M Val) : List Char :=
+  match m.1 with
+  | .ok w => cs "ok " ++ renderL w
+  | .error e => cs "err " ++ renderErrL e
+
+/-- the `Ext` in which exactly the external call named by `spec` fails ("-" = none; `ctor:<qualified class>`,
+    `setattr`, `float`, `uri`, `mkset`, `exthook`) -/
+def mkExtL (spec : List Char) : Ext where
+  ctorOk := fun c _ => !(spec == cs "ctor:" ++ clsNameL c)
+  setattrOk := fun _ _ _ => spec != cs "setattr"
+  floatOk := fun _ => spec != cs "float"
+  uriOk := fun _ => spec != cs "uri"
+  setOk := fun _ => spec != cs "mkset"
+  extOk := fun _ _ => spec != cs "exthook"
+
 /-! ### recursion budget -/
 
 mutual
@@ -568,6 +667,42 @@ end
 
 /-- a budget that the `_ExceptionWrapper` recursion cannot exhaust (theorem `C04_fuel_sufficient`) -/
 def fuelFor (v : Val) : Nat := depth v + 1
+
+/-! ### the extracted probe table: literal trees and what the REAL decoder made of them -/
+
+mutual
+def litToVal : Pyro.Gen.C04.Lit → Val
+  | .atom t l => .atom t l
+  | .blob t l => .blob t l
+  | .str s => .str s
+  | .bytes b => .bytes b
+  | .list xs => .list (litsToVals xs)
+  | .tuple xs => .tuple (litsToVals xs)
+  | .set xs => .set (litsToVals xs)
+  | .dictS ks vs => .dict (ks.map Key.str) (litsToVals vs)
+  | .dictK ks vs => .dict (ks.map fun k => match k with | (true, s) => Key.str s | (false, s) => Key.other (String.ofList s)) (litsToVals vs)
+  | .ext c raw conv t => .ext c raw conv t
+def litsToVals : List Pyro.Gen.C04.Lit → List Val
+  | [] => []
+  | x :: xs => litToVal x :: litsToVals xs
+end
+
+def serOfNat : Nat → Ser
+  | 0 => .serpent
+  | 1 => .marshal
+  | 2 => .json
+  | _ => .msgpack
+
+/-- what the model makes of a probe (same entry points, registry and failing external call as the real run) -/
+def runProbe (p : Pyro.Gen.C04.Probe) : List Char :=
+  let v := litToVal p.input
+  let E : Env := { reg := p.reg, ext := mkExtL p.spec }
+  if p.call then outcomeL (loadsCall E Pyro.Gen.C04.msgpackCallExtHook (serOfNat p.ser) (fuelFor v) v)
+  else outcomeL (loads E (serOfNat p.ser) (fuelFor v) v)
+
+/-- every probe whose model outcome differs from the recorded real outcome (empty = the model agrees with the source) -/
+def probeFailures : List String :=
+  (Pyro.Gen.C04.probes.filter fun p => !(runProbe p == p.expect)).map fun p => p.name
 
 /-! ### specification vocabulary: the closed set -/
 
